@@ -60,6 +60,10 @@ FUNCS = {
                          words=['sInt'], defined_in='C05.lean', targets=['dt_intersect']),
     'fast_positions': dict(tie=T + 'FastPositions', theorems=['Mahotas.cscalar_fast_positions_eq_model'],
                            words=['fastPositions'], defined_in='C01.lean', targets=['fast_positions']),
+    'union_find': dict(tie=T + 'UnionFind', theorems=['Mahotas.cscalar_uf_find_eq_model', 'Mahotas.cscalar_uf_compress_eq_model',
+                                                      'Mahotas.cscalar_uf_join_eq_model'],
+                       words=['labelModel', 'labelAddr', 'scanPixel', 'scanPixelAddr', 'parentsAddr'], defined_in='C03.lean',
+                       targets=['uf_find', 'uf_compress', 'uf_join']),
     'rank_currank': dict(tie=T + 'CurRank', theorems=['Mahotas.cscalar_rank_currank_eq_model'],
                          words=['curRankG'], defined_in='C07.lean', targets=['rank_currank']),
     'find2d_marks': dict(tie=T + 'Find2d', theorems=['Mahotas.cscalar_find2d_marks_eq_model'],
@@ -231,6 +235,16 @@ def _unit(srcs: dict) -> str:
         s.append('extern "C" long cs_fast_positions(long Nx_, long By_, long Bx_, const long* bc, long* out) { const numpy::index_type Nx = Nx_; '
                  'cs_bc Bc = { bc, By_, Bx_ }; ' + srcs['fast_positions']['slice'] +
                  ' for (size_t i = 0; i < positions.size(); ++i) out[i] = positions[i]; return (long)positions.size(); }')
+    if 'uf_find' in have:
+        s.append('#include <vector>')
+        s.append('namespace {')
+        for k in ('uf_find', 'uf_compress', 'uf_join'):
+            if k in have:
+                s.append(srcs[k]['text'])
+        s.append('}')
+        s.append('extern "C" long cs_uf(int which, int n, const long* in, long i, long j, long* out) { std::vector<int> d(in, in + n); d.push_back(0); long r = 0; '
+                 'if (which == 0) r = find(&d[0], (int)i);' + (' else if (which == 1) compress(&d[0], (int)i);' if 'uf_compress' in have else '') +
+                 (' else join(&d[0], (int)i, (int)j);' if 'uf_join' in have else '') + ' for (int k = 0; k < n; ++k) out[k] = d[k]; return r; }')
     if 'rank_currank' in have:
         s.append('extern "C" long cs_rank_currank(long n, long N2, long rank) { ' + srcs['rank_currank']['slice'] + ' return currank; }')
     if 'find2d_marks' in have or 'find2d_accesses' in have:
@@ -279,7 +293,7 @@ def _unit(srcs: dict) -> str:
 GROUPS = [['fix_offset'], ['t_abs'], ['subm_elem'], ['margin_of'], ['erode_sub', 'erode_sub_bool'], ['dilate_add', 'dilate_add_bool'],
           ['isLeft'], ['forward_cmp'], ['reverse_cmp'], ['at_flat'], ['pos_to_flat'], ['flat_to_pos'],
           ['sum_rect', 'csum_rect', 'haar_x', 'haar_y'], ['roll_right', 'lbp_map'], ['find2d_marks', 'find2d_accesses'],
-          ['spline_coeff'], ['rank_currank'], ['dt_intersect'], ['fast_positions']]
+          ['spline_coeff'], ['rank_currank'], ['dt_intersect'], ['fast_positions'], ['uf_find', 'uf_compress', 'uf_join']]
 _LIB = {}
 _SRCS = None
 
@@ -403,6 +417,17 @@ def _real_rows(case):
             O = (ctypes.c_long * (2 * n + 2))()
             k = f(ctypes.c_long(nx), ctypes.c_long(dims[0]), ctypes.c_long(dims[1]), B, O)
             out.append(','.join(str(O[i]) for i in range(k)))
+    elif fn in ('uf_find', 'uf_compress', 'uf_join'):
+        f = lib.cs_uf
+        f.restype = ctypes.c_long
+        which = ('uf_find', 'uf_compress', 'uf_join').index(fn)
+        for a, data in case['rows']:
+            n = len(data)
+            D = (ctypes.c_long * max(1, n))(*data)
+            O = (ctypes.c_long * max(1, n))()
+            r = f(which, n, D, ctypes.c_long(a[1]), ctypes.c_long(a[2] if len(a) > 2 else 0), O)
+            arr = ','.join(str(O[k]) for k in range(n))
+            out.append(f'{r};{arr}' if fn == 'uf_find' else arr)
     elif fn == 'rank_currank':
         f = lib.cs_rank_currank
         f.restype, f.argtypes = ctypes.c_long, [ctypes.c_long] * 3
@@ -452,6 +477,8 @@ def _lines(case):
     if fn in ('margin_of', 'pos_to_flat'):
         return [f'{pre} l0={core.fmt_ints(d)} l1={core.fmt_ints(p)}' for d, p in case['rows']]
     if fn in ('sum_rect', 'csum_rect', 'haar_x', 'haar_y', 'flat_to_pos'):
+        return [f'{pre} a={core.fmt_ints(a)} l0={core.fmt_ints(d)}' for a, d in case['rows']]
+    if fn in ('uf_find', 'uf_compress', 'uf_join'):
         return [f'{pre} a={core.fmt_ints(a)} l0={core.fmt_ints(d)}' for a, d in case['rows']]
     if fn == 'fast_positions':
         return [f'{pre} a={core.fmt_ints(a)} l0={core.fmt_ints(d)} l1={core.fmt_ints(bc)}' for a, d, bc in case['rows']]
@@ -715,6 +742,34 @@ def _cases_fastpos(rng, tier):
     return [dict(fn='fast_positions', rows=ch, src='random') for ch in _chunks(rows, 1200)]
 
 
+def _cases_uf(rng, tier):
+    """random parent forests (every chain ends in a root; node numbers permuted; background entries -1 that nothing points to),
+    long chains included; find / compress from every kind of node, join of two foreground nodes; fuel = N + 1 as in the model"""
+    out = {k: [] for k in ('uf_find', 'uf_compress', 'uf_join')}
+    for _ in range(dict(quick=600, thorough=12000, search=4000)[tier]):
+        n = rng.choice([1, 2, 3, rng.randint(1, 12), rng.randint(1, 40)])
+        perm = list(range(n))
+        rng.shuffle(perm)
+        bg = [rng.random() < 0.25 for _ in range(n)]
+        if all(bg):
+            bg[0] = False
+        fg = [k for k in range(n) if not bg[k]]
+        style = rng.choice(['chain', 'random', 'flat'])
+        par = [-1] * n
+        for idx, k in enumerate(fg):
+            if idx == 0 or (style != 'chain' and rng.random() < 0.2):
+                p = k
+            else:
+                p = fg[idx - 1] if style == 'chain' else (fg[0] if style == 'flat' else rng.choice(fg[:idx]))
+            par[perm[k]] = perm[p]
+        nodes = [perm[k] for k in fg]
+        i, j = rng.choice(nodes), rng.choice(nodes)
+        out['uf_find'].append([[n + 1, i], par])
+        out['uf_compress'].append([[n + 1, i], par])
+        out['uf_join'].append([[n + 1, i, j], par])
+    return [dict(fn=k, rows=ch, src='random') for k, rows in out.items() for ch in _chunks(rows, 600)]
+
+
 def _cases_currank(rng, tier):
     """every (n, N2, rank) with rank < N2 <= 12, n <= N2; random footprints up to 2^20 samples (n * rank below 2^53)"""
     rows = [[n, n2, r] for n2 in range(1, 13) for n in range(0, n2 + 1) for r in range(0, n2)]
@@ -727,6 +782,7 @@ def _cases_currank(rng, tier):
 GENERATORS = {
     'spline_coeff': _cases_spline,
     'rank_currank': _cases_currank,
+    'union_find': _cases_uf,
     'fast_positions': _cases_fastpos,
     'dt_intersect': _cases_dt,
     'find2d_marks': lambda rng, tier: _cases_find2d('find2d_marks', rng, tier),
